@@ -4,6 +4,10 @@ def brk(name, props, edits, rule, where=""):
     CATALOGUE.append(dict(name=name, kind="break", props=props, edits=edits, rule=rule, where=where))
 def benign(name, props, edits):
     CATALOGUE.append(dict(name=name, kind="benign", props=props, edits=edits, rule="", where=""))
+def refactor(rid, props):
+    CATALOGUE.append(dict(name="refactor-" + rid, kind="benign", props=props, edits=[], rule="", where="", patch="seeded/refactors/" + rid + "/patch.diff"))
+def brk_on(rid, name, props, edits, rule, where=""):
+    CATALOGUE.append(dict(name=name, kind="break", props=props, edits=edits, rule=rule, where=where, patch="seeded/refactors/" + rid + "/patch.diff"))
 
 # ---------------------------------------------------------------- C08
 brk("c08-baseline-dht-drop-th-check", ["C08"],
@@ -33,6 +37,13 @@ brk("c08-j2k-siz-drop-tile-size-check", ["C08"],
 brk("c08-baseline-dqt-mask-removed", ["C08"],
     [("jpeg/baseline/decoder.go", "		tq := pqTq & 0x0F // Table ID\n\n		if tq > 3 {\n			return standard.ErrInvalidDQT\n		}\n", "		tq := pqTq // Table ID\n")],
     "IDX", "parseDQT")
+brk("c08-htj2k-scup-locator-read-before-length-test", ["C08"],
+    [("jpeg2000/htj2k/decoder.go", "	if lcup < 2 {\n		return nil, nil, fmt.Errorf(\"invalid HTJ2K code-block length: lcup=%d\", lcup)\n	}\n", "")],
+    "SLICE-LENREL", "parseStandardSegments")
+brk("c08-jpegls-sos-trailer-check-weakened", ["C08"],
+    [("jpegls/nearlossless/decoder.go", "	if len(data) < 4 {\n		return standard.ErrInvalidSOS\n	}\n\n	numComponents := int(data[0])\n	if numComponents != dec.components {\n		return fmt.Errorf(\"SOS component count mismatch\")",
+      "	if len(data) < 1 {\n		return standard.ErrInvalidSOS\n	}\n\n	numComponents := int(data[0])\n	if numComponents != dec.components {\n		return fmt.Errorf(\"SOS component count mismatch\")")],
+    "SLICE-LENREL", "parseSOS")
 # behaviour-preserving edits: must stay silent
 benign("c08-benign-hoist-guard-into-helper", ["C08"],
     [("jpeg/baseline/decoder.go", "		if td > 3 || ta > 3 {\n			return standard.ErrInvalidSOS\n		}\n",
@@ -210,3 +221,68 @@ benign("c10-benign-frame-loop-body-extracted", ["C10"],
     [("rle/rle.go", "		var dstFrame []byte\n		if err := c.decodeFrame(srcFrame, &dstFrame, frameInfo, parameters); err != nil {\n			return fmt.Errorf(\"failed to decode frame %d: %w\", i, err)\n		}\n",
       "		dstFrame, err := c.decodeOne(srcFrame, frameInfo, parameters)\n		if err != nil {\n			return fmt.Errorf(\"failed to decode frame %d: %w\", i, err)\n		}\n"),
      ("rle/rle.go", "func (c *Codec) decodeFrame(src []byte,", "func (c *Codec) decodeOne(src []byte, info *imagetypes.FrameInfo, p codec.Parameters) ([]byte, error) {\n	var dst []byte\n	if err := c.decodeFrame(src, &dst, info, p); err != nil {\n		return nil, err\n	}\n	return dst, nil\n}\n\nfunc (c *Codec) decodeFrame(src []byte,")])
+
+# ---------------------------------------------------------------- refactorings (sub-agent written, behaviour-preserving)
+# every one of these made some check alarm or error before the rules were generalised (DESIGN §10.5)
+refactor("R1-1", ["C08"])
+refactor("R1-2", ["C08"])
+refactor("R1-3", ["C08", "C09"])
+refactor("R1-4", ["C08", "C09"])
+refactor("R1-5", ["C04", "C19"])
+refactor("R2-1", ["C17", "C18"])
+refactor("R2-2", ["C16", "C18"])
+refactor("R2-3", ["C10"])
+refactor("R2-4", ["C08", "C10"])
+refactor("R2-5", ["C05", "C06", "C10"])
+refactor("R3-1", ["C10", "C17"])
+refactor("R3-2", ["C16"])
+refactor("R3-3", ["C04", "C19"])
+refactor("R3-4", ["C16", "C17", "C19"])
+refactor("R3-5", ["C10", "C17", "C18"])
+refactor("R4-1", ["C16", "C18", "C19"])
+refactor("R4-2", ["C10", "C17"])
+refactor("R4-3", ["C08", "C19"])
+refactor("R4-4", ["C04", "C19"])
+refactor("R4-5", ["C05", "C06", "C10", "C18"])
+# breaks planted in refactored code: the generalised rules must still see them
+brk_on("R3-3", "on-R3-3-rlcp-loops-swapped-in-shared-helper-form", ["C04"],
+    [("jpeg2000/t2/packet_encoder.go", "	for res := 0; res < pe.numResolutions; res++ {\n		for layer := 0; layer < maxLayers; layer++ {\n			for comp := 0; comp < pe.numComponents; comp++ {\n				err := pe.appendPrecinctPackets(layer, res, comp, func(precinctIdx int, err error) error {\n					return fmt.Errorf(\"failed to encode packet (R=",
+      "	for layer := 0; layer < maxLayers; layer++ {\n		for res := 0; res < pe.numResolutions; res++ {\n			for comp := 0; comp < pe.numComponents; comp++ {\n				err := pe.appendPrecinctPackets(layer, res, comp, func(precinctIdx int, err error) error {\n					return fmt.Errorf(\"failed to encode packet (R=")],
+    "EXHAUST-PROG", "RLCP")
+brk_on("R3-4", "on-R3-4-psot-argument-forgets-tile-header", ["C16"],
+    [("jpeg2000/encoder.go", "	tilePartLength := len(tileBytes) + tileHeader.Len() + tilePartFraming // SOT(12) + header + SOD(2) + data\n	writeSOT(buf, tileIdx, tilePartLength, 0, 1)",
+      "	tilePartLength := len(tileBytes) + tilePartFraming // SOT(12) + SOD(2) + data\n	writeSOT(buf, tileIdx, tilePartLength, 0, 1)")],
+    "BYTES", "writeTile")
+brk_on("R3-4", "on-R3-4-generic-segment-length-excludes-itself", ["C16"],
+    [("jpeg2000/encoder.go", "	binary.BigEndian.PutUint16(head[2:4], uint16(len(payload)+2))", "	binary.BigEndian.PutUint16(head[2:4], uint16(len(payload)))")],
+    "BYTES", "writeMarkerSegment")
+brk_on("R3-4", "on-R3-4-isot-off-by-one-in-helper", ["C19"],
+    [("jpeg2000/encoder.go", "	binary.BigEndian.PutUint16(sot[4:6], uint16(tileIdx)) // Isot", "	binary.BigEndian.PutUint16(sot[4:6], uint16(tileIdx+1)) // Isot")],
+    "FLOWS-TILEIDX", "writeSOT")
+brk_on("R3-4", "on-R3-4-caller-passes-constant-tile-index", ["C19"],
+    [("jpeg2000/encoder.go", "	writeSOT(buf, tileIdx, tilePartLength, 0, 1)", "	writeSOT(buf, 0, tilePartLength, 0, 1)")],
+    "FLOWS-TILEIDX", "writeSOT")
+brk_on("R3-1", "on-R3-1-check-helper-loses-upper-bound", ["C17"],
+    [("jpeg/baseline/encoder.go", "	case width <= 0, height <= 0, width > maxFrameDimension, height > maxFrameDimension:", "	case width <= 0, height <= 0:")],
+    "NARROW", "writeSOF0")
+brk_on("R3-1", "on-R3-1-check-helper-loses-buffer-test", ["C17"],
+    [("jpeg/baseline/encoder.go", "	case pixelBytes < width*height*components:\n		return standard.ErrBufferTooSmall\n", "")],
+    "BUFFER-CHECK", "baseline")
+brk_on("R1-2", "on-R1-2-component-helper-loses-tq-check", ["C08"],
+    [("jpeg/baseline/decoder.go", "	if comp.Tq > maxTableID {\n		return nil, false\n	}\n", "")],
+    "IDX", "decodeBlock")
+brk_on("R1-2", "on-R1-2-component-helper-loses-sampling-check", ["C08"],
+    [("jpeg/baseline/decoder.go", "	if comp.H <= 0 || comp.H > maxSampling {\n		return nil, false\n	}\n", "")],
+    "DIV", "")
+brk_on("R2-4", "on-R2-4-range-loop-skips-last-frame", ["C10"],
+    [("rle/rle.go", "	for i := range frameCount {", "	for i := range frameCount - 1 {")],
+    "ORDER-FRAMES", "rle")
+brk_on("R3-1", "on-R3-1-frame-helper-ignores-index", ["C10"],
+    [("jpeg/baseline/codec.go", "	frameData, err := src.GetFrame(frameIndex)", "	frameData, err := src.GetFrame(0)")],
+    "ORDER-FRAMES", "baseline")
+brk_on("R2-5", "on-R2-5-lossless-field-negated", ["C06"],
+    [("jpeg2000/htj2k/codec.go", "	encParams.Lossless = c.lossless\n", "	encParams.Lossless = !c.lossless\n")],
+    "FLOWS-LOSSLESS", "htj2k")
+brk_on("R2-5", "on-R2-5-lossless-field-reassigned-in-method", ["C06"],
+    [("jpeg2000/htj2k/codec.go", "	encParams.Lossless = c.lossless\n", "	if parameters != nil {\n		c.lossless = false\n	}\n	encParams.Lossless = c.lossless\n")],
+    "FLOWS-LOSSLESS", "htj2k")
